@@ -61,13 +61,24 @@ def block_after(src, start_pat, what):
 def strip_comments(s):
     return re.sub(r"//[^\n]*", "", s)
 
-def extract():
-    out = {}
-    ci = read("src/input_context/context_instance.rs")
-    ev = read("src/input_context/events.rs")
-    inp = read("src/input.rs")
+# fragment -> the properties whose theorems or model depend on it (a fragment that can be obtained neither from the source
+# text nor by execution is a broken obligation of exactly these properties)
+FRAGMENTS = {
+    "stateOrder": ["C03", "C04"],
+    "flags": ["C01", "C02"],
+    "table": ["C01", "C02"],
+    "triggerOrder": ["C01"],
+    "modkeys": ["C05", "C15"],
+    "defaultActuation": ["C11"],
+    "deadZoneDefaults": ["C18"],
+    "dlerpSpeed": ["C18"],
+    "dlerpEps": ["C18"],
+    "sortedInsert": ["C06"],
+}
 
-    # --- ActionState variant order (derive(Ord) => significance order)
+
+def frag_stateOrder(src):
+    ci = src["ci"]
     m = re.search(r"#\[derive\(([^)]*)\)\]\s*pub enum ActionState", ci)
     if not m or "Ord" not in [t.strip() for t in m.group(1).split(",")]:
         raise ExtractError("ActionState: derive(Ord) not found")
@@ -76,16 +87,19 @@ def extract():
     variants = [v.strip() for v in body.split(",") if v.strip()]
     if sorted(variants) != sorted(STATE):
         raise ExtractError(f"ActionState: unexpected variants {variants}")
-    out["stateOrder"] = variants
+    return {"stateOrder": variants}
 
-    # --- ActionEvents flags
-    body = strip_comments(block_after(ev, r"pub struct ActionEvents\s*:\s*u8\s*\{", "ActionEvents flags"))
+
+def frag_flags(src):
+    body = strip_comments(block_after(src["ev"], r"pub struct ActionEvents\s*:\s*u8\s*\{", "ActionEvents flags"))
     flags = re.findall(r"const\s+(\w+)\s*=\s*(0b[01_]+|0x[0-9a-fA-F_]+|\d+)\s*;", body)
     if sorted(n for n, _ in flags) != sorted(EV):
         raise ExtractError(f"ActionEvents: unexpected flags {flags}")
-    out["flags"] = [(n, int(v.replace("_", ""), 0)) for n, v in flags]
+    return {"flags": [(n, int(v.replace("_", ""), 0)) for n, v in flags]}
 
-    # --- ActionEvents::new table
+
+def frag_table(src):
+    ev = src["ev"]
     body = strip_comments(block_after(ev, r"pub fn new\(previous: ActionState, current: ActionState\) -> ActionEvents\s*\{", "ActionEvents::new"))
     mm = re.search(r"match\s*\(previous,\s*current\)\s*\{", body)
     if not mm:
@@ -111,13 +125,14 @@ def extract():
         table.append((p, c, fl))
     if len(table) != 9 or len({(p, c) for p, c, _ in table}) != 9:
         raise ExtractError(f"ActionEvents::new: expected 9 distinct arms, got {len(table)}")
-    # residue check: nothing but the arms inside the match
     residue = re.sub(ARM, "", arms_src).strip()
     if residue:
         raise ExtractError(f"ActionEvents::new: unparsed residue `{residue[:60]}`")
-    out["table"] = table
+    return {"table": table}
 
-    # --- trigger order: iteration over `self.events.iter_names()` (declaration order of the flags)
+
+def frag_triggerOrder(src):
+    ci = src["ci"]
     if "self.events.iter_names()" not in ci:
         raise ExtractError("trigger_events_typed: iteration over `self.events.iter_names()` not found")
     te = block_after(ci, r"fn trigger_events_typed<A: InputAction>\(&self, commands: &mut Commands, entities: &\[Entity\]\)\s*\{", "trigger_events_typed")
@@ -125,8 +140,11 @@ def extract():
     want = {"STARTED": "Started", "ONGOING": "Ongoing", "FIRED": "Fired", "CANCELED": "Canceled", "COMPLETED": "Completed"}
     if dict(pairs) != want:
         raise ExtractError(f"trigger_events_typed: flag -> event mapping is {pairs}")
+    return {}
 
-    # --- ModKeys
+
+def frag_modkeys(src):
+    inp = src["inp"]
     body = strip_comments(block_after(inp, r"pub struct ModKeys\s*:\s*u8\s*\{", "ModKeys flags"))
     mflags = re.findall(r"const\s+(\w+)\s*=\s*(0b[01_]+|\d+)\s*;", body)
     if sorted(n for n, _ in mflags) != sorted(MODBIT):
@@ -142,35 +160,133 @@ def extract():
         if l not in KEYS or r not in KEYS:
             raise ExtractError(f"ModKeys::iter_keys: key {l}/{r} not in the protocol pool")
         mk.append((n, int(v.replace("_", ""), 0), KEYS.index(l), KEYS.index(r)))
-    out["modkeys"] = mk
+    return {"modkeys": mk}
 
-    # --- constants
-    ic = read("src/input_context/input_condition.rs")
-    m = re.search(r"pub const DEFAULT_ACTUATION: f32 = ([0-9.eE+-]+);", ic)
+
+def frag_defaultActuation(src):
+    m = re.search(r"pub const DEFAULT_ACTUATION: f32 = ([0-9.eE+-]+);", read("src/input_context/input_condition.rs"))
     if not m:
         raise ExtractError("DEFAULT_ACTUATION not found")
-    out["defaultActuation"] = f32(m.group(1))
+    return {"defaultActuation": f32(m.group(1))}
+
+
+def frag_deadZoneDefaults(src):
     dz = read("src/input_context/input_modifier/dead_zone.rs")
     m = re.search(r"lower_threshold:\s*([0-9.eE+-]+),\s*upper_threshold:\s*([0-9.eE+-]+),", dz)
     if not m:
         raise ExtractError("DeadZone::new defaults not found")
-    out["dzLower"], out["dzUpper"] = f32(m.group(1)), f32(m.group(2))
-    dl = read("src/input_context/input_modifier/delta_lerp.rs")
-    m = re.search(r"Self::new\(([0-9.eE+-]+)\)", dl)
+    return {"dzLower": f32(m.group(1)), "dzUpper": f32(m.group(2))}
+
+
+def frag_dlerpSpeed(src):
+    m = re.search(r"Self::new\(([0-9.eE+-]+)\)", read("src/input_context/input_modifier/delta_lerp.rs"))
     if not m:
         raise ExtractError("DeltaLerp default speed not found")
-    out["dlerpSpeed"] = f32(m.group(1))
-    m = re.search(r"distance_squared\(target_value\)\s*<\s*([0-9.eE+-]+)", dl)
+    return {"dlerpSpeed": f32(m.group(1))}
+
+
+def frag_dlerpEps(src):
+    m = re.search(r"distance_squared\(target_value\)\s*<\s*([0-9.eE+-]+)", read("src/input_context/input_modifier/delta_lerp.rs"))
     if not m:
         raise ExtractError("DeltaLerp snap epsilon not found")
-    out["dlerpEps"] = f32(m.group(1))
+    return {"dlerpEps": f32(m.group(1))}
 
-    # --- context priority order: Reverse(priority) keys in the sorted insert
+
+def frag_sortedInsert(src):
     ic2 = read("src/input_context.rs")
     if not re.search(r"let priority = Reverse\(C::PRIORITY\);", ic2) or \
        not re.search(r"binary_search_by_key\(&priority,\s*\|group\|\s*Reverse\(group\.priority\(\)\)\)", ic2):
         raise ExtractError("ContextInstances::add: sorted insert by Reverse(priority) not found")
-    return out
+    return {}
+
+
+def executed_tables():
+    """the same tables obtained by executing the crate's public API (`bei_harness --tables`); {} if unavailable"""
+    import subprocess
+    exe = os.environ.get("BEI_HARNESS", "/verif/harness/target/release/bei_harness")
+    try:
+        txt = subprocess.run([exe, "--tables"], capture_output=True, text=True, timeout=60).stdout
+    except Exception:
+        return {}
+    o = {"flags": None, "table": [], "modkeys": []}
+    try:
+        for l in txt.splitlines():
+            t = l.split(" ")
+            if t[0] == "stateOrder":
+                o["stateOrder"] = t[1:]
+            elif t[0] == "flags":
+                o["flags"] = [(x.split("=")[0], int(x.split("=")[1])) for x in t[1:]]
+            elif t[0] == "table":
+                o["table"].append((t[1], t[2], [x for x in t[3:] if x]))
+            elif t[0] == "modkey":
+                o["modkeys"].append((t[1], int(t[2]), KEYS.index(t[3]), KEYS.index(t[4])))
+            elif t[0] in ("defaultActuation", "dzLower", "dzUpper", "dlerpSpeed"):
+                o[t[0]] = Fraction(t[1])
+    except Exception:
+        return {}
+    if len(o["table"]) != 9 or not o["flags"] or len(o["modkeys"]) != 4:
+        return {}
+    return o
+
+
+FRAG_KEYS = {"stateOrder": ["stateOrder"], "flags": ["flags"], "table": ["table"], "triggerOrder": [], "modkeys": ["modkeys"],
+             "defaultActuation": ["defaultActuation"], "deadZoneDefaults": ["dzLower", "dzUpper"], "dlerpSpeed": ["dlerpSpeed"],
+             "dlerpEps": ["dlerpEps"], "sortedInsert": []}
+
+
+def extract():
+    """-> (values, status) with status[fragment] = 'source' | 'executed' | 'FAILED: …'"""
+    src = {}
+    status = {}
+    for key, rel in (("ci", "src/input_context/context_instance.rs"), ("ev", "src/input_context/events.rs"), ("inp", "src/input.rs")):
+        try:
+            src[key] = read(rel)
+        except ExtractError:
+            src[key] = ""
+    out = {}
+    fallback = None
+    for frag in FRAGMENTS:
+        try:
+            out.update(globals()["frag_" + frag](src))
+            status[frag] = "source"
+        except ExtractError as e:
+            if fallback is None:
+                fallback = executed_tables()
+            keys = FRAG_KEYS[frag]
+            if keys and all(k in fallback and fallback[k] for k in keys):
+                for k in keys:
+                    out[k] = fallback[k]
+                status[frag] = f"executed (source text not recognised: {e})"
+            elif not keys:
+                # a structural pattern without a value (delivery order, sorted insertion): what it stands for is observed
+                # by the correspondence itself (`dk` order inside an action, `gorder`), so this is informational
+                status[frag] = f"unrecognised, informational (covered by the correspondence): {e}"
+            else:
+                status[frag] = f"FAILED: {e}"
+    return out, status
+
+
+def previous_values(dest):
+    """values of the last generated file (kept for fragments that can no longer be obtained, so that the model still builds)"""
+    side = dest + ".json"
+    if os.path.exists(side):
+        import json
+        raw = json.load(open(side))
+        o = {}
+        for k, v in raw.items():
+            if k in ("defaultActuation", "dzLower", "dzUpper", "dlerpSpeed", "dlerpEps"):
+                o[k] = Fraction(v)
+            elif k == "flags":
+                o[k] = [tuple(x) for x in v]
+            elif k == "table":
+                o[k] = [(p, c, list(fl)) for p, c, fl in v]
+            elif k == "modkeys":
+                o[k] = [tuple(x) for x in v]
+            else:
+                o[k] = v
+        return o
+    return {}
+
 
 def render(o):
     L = []
@@ -202,17 +318,30 @@ def render(o):
     return "\n".join(L) + "\n"
 
 def main():
+    import json
     dest = sys.argv[1] if len(sys.argv) > 1 else "/verif/lean/BEI/Gen/Tables.lean"
-    try:
-        o = extract()
-    except ExtractError as e:
-        print(f"EXTRACT-ERROR {e}")
-        sys.exit(4)
+    o, status = extract()
+    prev = previous_values(dest)
+    needed = ["stateOrder", "flags", "table", "modkeys", "defaultActuation", "dzLower", "dzUpper", "dlerpSpeed", "dlerpEps"]
+    for k in needed:
+        if k not in o:
+            if k in prev:
+                o[k] = prev[k]          # stale value: the fragment is reported FAILED, the file merely stays buildable
+            else:
+                print(f"EXTRACT-ERROR fragment {k} unavailable and no previous value")
+                sys.exit(4)
     txt = render(o)
     old = open(dest).read() if os.path.exists(dest) else None
     if old != txt:
         open(dest, "w").write(txt)
-    print("extract ok")
+    if not any(v.startswith("FAILED") for v in status.values()):
+        side = {k: (str(v) if isinstance(v, Fraction) else v) for k, v in o.items()}
+        new_side = json.dumps(side, indent=1, sort_keys=True)
+        if not os.path.exists(dest + ".json") or open(dest + ".json").read() != new_side:
+            open(dest + ".json", "w").write(new_side)
+    for frag, st in status.items():
+        print(f"FRAGMENT {frag} [{','.join(FRAGMENTS[frag])}] {st}")
+    print("extract ok" if all(v == "source" for v in status.values()) else "extract partial")
 
 if __name__ == "__main__":
     main()
